@@ -10,6 +10,11 @@ CLAIMS = {
    text="Decides, exhaustively over the finite set of opcodes / interpreter clauses / writer emit sites found in the current source, that the bytecode contract between writer, size/backtrack tables and interpreter is coherent (R-OP1..5) and that every opcode's forward/Back/Back2 clauses agree on backtracking-frame shape and grouping-stack depth (R-OP3, R-STK). This is a necessary condition of C01: an incoherent contract desynchronises every pattern using the opcode. It does NOT decide that the search is leftmost / priority-ordered; that equality over all patterns x inputs is out of reach of static analysis.",
    note="Trusted: go/types constant evaluation; the path enumerator treats loops as 0/1 iterations; semantic meaning of each handler is not examined.",
    ref="DESIGN.md §3 R-OP, §4 C01"),
+ "C10": dict(
+   technique="static analysis: abstract interpretation (interval + difference bounds) over go/cfg of the pattern parser; who-may-write / who-may-index checks; panic-site classification with call-graph reachability",
+   text="Decides that every read of the pattern by the parser is dominated on every control-flow path by a length test proving the index in range (R-GUARD, all parser functions, inferred helper preconditions demanded at call sites), so no malformed pattern can make the parser index out of range; plus classification of every explicit panic site and fatal default (R-PANIC, R-FATAL) and nil-tests before use in the adapter (R-NILMATCH). Necessary for C10; it does NOT decide panics from index arithmetic outside the parser (class canonicaliser, finders, interpreter) nor termination.",
+   note="Trusted: the abstract domain's transfer functions for the nine position primitives (their bodies are checked against the modelled effect); 11 sites outside the domain are frozen, individually argued exceptions listed in the rule source.",
+   ref="DESIGN.md §4 C10"),
 }
 
 NOT_APPLICABLE = {
